@@ -30,7 +30,7 @@ class ModuleInfo:
         from .normalise import normalise
 
         if kind in ("py", "pyx"):
-            tree = normalise(tree)
+            tree = normalise(tree, typed_locals=(kind == "pyx"))
         self.name = name
         self.relpath = relpath  # relative to repo root
         self.tree = tree
@@ -378,6 +378,36 @@ def nsrc(text: str) -> str:
     if len(tree.body) == 1 and isinstance(tree.body[0], ast.Expr):
         return ast.unparse(tree.body[0].value)
     return ast.unparse(tree)
+
+
+def expand(fn, expr, depth=6):
+    """Def-use expansion for comparing definitions: a copy of expr in which every plain local of fn that is bound by
+    exactly ONE statement of the form  name = value  (and is not a parameter, loop target, with-target or augmented)
+    is replaced by that value, transitively.  A rule that compares the expanded form does not care whether the
+    author named an intermediate value or wrote it in place."""
+    import copy
+
+    binds = {}
+    for n in ast.walk(fn):
+        if isinstance(n, ast.Name) and isinstance(n.ctx, (ast.Store, ast.Del)):
+            binds[n.id] = binds.get(n.id, 0) + 1
+        elif isinstance(n, ast.arg):
+            binds[n.arg] = binds.get(n.arg, 0) + 5
+    defs = {}
+    for n in ast.walk(fn):
+        if isinstance(n, ast.Assign) and len(n.targets) == 1 and isinstance(n.targets[0], ast.Name) and binds.get(n.targets[0].id) == 1:
+            defs[n.targets[0].id] = n.value
+
+    def sub(e, d):
+        class S(ast.NodeTransformer):
+            def visit_Name(self, node):
+                if isinstance(node.ctx, ast.Load) and node.id in defs and d > 0:
+                    return sub(copy.deepcopy(defs[node.id]), d - 1)
+                return node
+
+        return S().visit(e)
+
+    return sub(copy.deepcopy(expr), depth)
 
 
 def assigning_stmts(fn, target: str):
